@@ -1786,6 +1786,30 @@ func c08GenSSHWire(c *Ctx, add func(comp, tag, name string, data []byte)) {
 			}
 		}
 	}
+	// PuTTY: the numeric headers of an encrypted file (Argon2 cost parameters) are count/size fields
+	for _, fx := range []string{"putty/ecdsa-enc-argon2i.ppk", "putty/ecdsa-enc-argon2d.ppk", "putty/ecdsa-enc-defaults.ppk"} {
+		src := string(fixture(fx))
+		short := strings.TrimSuffix(strings.TrimPrefix(fx, "putty/"), ".ppk")
+		lines := strings.Split(src, "\n")
+		for li, l := range lines {
+			for _, key := range []string{"Argon2-Memory: ", "Argon2-Passes: ", "Argon2-Parallelism: "} {
+				if !strings.HasPrefix(l, key) {
+					continue
+				}
+				cr := ""
+				if strings.HasSuffix(l, "\r") {
+					cr = "\r"
+				}
+				n, _ := strconv.Atoi(strings.TrimSpace(strings.TrimPrefix(l, key)))
+				for _, v := range []string{"0", "-1", "1", "65535", "65536", "65537", "2147483647", "2147483648", "4294967295", "4294967296", "-2147483648", "-2147483647",
+					"-4294967295", "9223372036854775807", "-9223372036854775808", strconv.Itoa(n + 1), strconv.Itoa(n - 1), strconv.Itoa(-n), "", "x", "1e9"} {
+					out := append([]string{}, lines...)
+					out[li] = key + v + cr
+					add("inspect", fmt.Sprintf("ppk-kdf-%s-%s=%s", short, strings.TrimSuffix(key, ": "), v), short+".ppk", []byte(strings.Join(out, "\n")))
+				}
+			}
+		}
+	}
 	// PuTTY: Public-Lines / Private-Lines blobs are SSH wire strings
 	for _, fx := range []string{"putty/ed25519.ppk", "putty/rsa.ppk", "putty/ecdsa.ppk", "putty/dsa.ppk"} {
 		src := string(fixture(fx))
